@@ -461,6 +461,11 @@ inductive OpKind where
   /-- `with_manager_exclusive(|m| m.reorder(|m| set_var_order(m, …)))` (manager.rs:1310-1339):
       `pre_gc` (1319) locks all buckets for the whole closure; the closure: concurrent sort =
       `workers().broadcast` (set_var_order/mod.rs:318) joined while holding `mgr` + buckets,
+      (if the pool has one worker or the store holds fewer than 65536 nodes, mod.rs:58-64, the
+      sort is `bubble_sort`, mod.rs:262-276, instead: `level_swap` — two level locks ascending
+      plus the store state mutex, reorder lib.rs:82-83/170/206 — runs **on the calling thread**;
+      this path was missing from the table until the runtime lock traces of `c07_locks` showed
+      `storeState` acquired under `mgr`, the buckets and two level locks),
       then the sequential phase `level_unchecked(i).swap(&mut level_unchecked(j))` with `i < j`
       (mod.rs:145-149; TWO level locks, ascending), `update_levels` (mod.rs:395-405: `levels()`
       one at a time, then `slice_for_each` = second broadcast), optional nested `gc()`;
@@ -503,8 +508,11 @@ def opProg (d : Dims) : OpKind → Prog Lock
       (bucketsAcq d.nb                                        -- pre_gc, manager.rs:1319
        ++ [termB] ++ (List.range d.nl).map levelB             -- pre_reorder_mut (ZBDD)
        ++ [joinB ws]                                          -- concurrent sort (broadcast)
-       ++ (if 2 ≤ d.nl then [locked (level 0) [locked (level (d.nl - 1)) []]] else [])
-                                                              -- mod.rs:145-149, i < j
+       ++ (if 2 ≤ d.nl then [locked (level 0) [levelB (d.nl - 1)]] else [])
+                                                              -- mod.rs:145-149, i < j; and the
+                                                              -- sequential sort: `level_swap` on
+                                                              -- the calling thread (two levels +
+                                                              -- store state)
        ++ (List.range d.nl).map (fun j => locked (level j) []) -- update_levels: `levels()`
        ++ [joinB ws2]                                         -- slice_for_each
        ++ [gcCallPrepared d]                                  -- nested gc() (optional)
